@@ -172,3 +172,12 @@ type Mark struct{ M int }
 
 // Dur lets generated code declare time.Duration fields without importing time.
 type Dur = time.Duration
+
+// CfgPV is a configuration holder that names its own prefix (definition.ConfigurationProperties)
+// through a VALUE-receiver method; components declare it as an untagged (nil) pointer field.
+type CfgPV struct {
+	A int    `yaml:"a"`
+	B string `yaml:"b"`
+}
+
+func (CfgPV) Prefix() string { return "sim.sub" }
